@@ -82,8 +82,8 @@ def run_check(prop, tier, seed, repo, jobfilter=None, procs=None):
         queries += r["queries"]
         paths += r["paths"]
         repolls += r.get("repolls", 0)
-        if r.get("impl"):
-            funcs.add(tuple(r["impl"]))
+        for fn_ in r.get("functions") or ([r["impl"]] if r.get("impl") else []):
+            funcs.add(tuple(fn_))
         if r.get("undecided"):
             undecided.append(r)
             continue
@@ -263,7 +263,7 @@ def native_replay(plan, r, scenario, repo):
         return None
     spec = plan.find_job(r["job"])
     payload = {"job": r["job"], "module": spec[0], "impl": r.get("impl"), "ref": r.get("ref"), "kind": r.get("kind"),
-               "scenario": scenario, "repo": repo, "args": r.get("args")}
+               "scenario": scenario, "repo": repo, "args": r.get("args"), "opts": r.get("opts")}
     if not payload["args"] or "unsupported" in json.dumps(payload["args"]):
         return {"confirmed": False, "error": "parameter shape of this job cannot be built natively"}
     p = subprocess.run(["/venv/bin/python", harness, "--scenario", "-"], input=json.dumps(payload, default=str), capture_output=True, text=True,
